@@ -204,3 +204,178 @@ Section C06_mh_converges.
   Qed.
 End C06_mh_converges.
 Print Assumptions C06_mh_converges.
+
+(* ---- m-step kernels: when only the m-step kernel kpow m is minorised (a proposal with zero entries: the one-step
+   kernel has zeros, Doeblin's hypothesis fails for it), the m-step kernel is still stochastic, pushes laws like m
+   steps of P and keeps P's stationary law, so the law after m*n steps is within (1 - N delta_m)^n of it ---- *)
+From MiniMcmc Require Import Model.ErgodicEval Proofs.ErgodicEval.
+Close Scope Q_scope.
+Open Scope R_scope.
+
+Section C06_blocks.
+  Context {St : Type}.
+  Variable eqb : St -> St -> bool.
+  Hypothesis eqb_spec : forall x y, eqb x y = true <-> x = y.
+  Variable states : list St.
+  Hypothesis states_nodup : NoDup states.
+  Variable P : St -> St -> R.
+  Hypothesis P_row : forall x, In x states -> sumR (P x) states = 1.
+
+  Theorem C06_kpow_row_sum : forall m x, In x states -> sumR (kpow eqb states P m x) states = 1.
+  Proof. exact (kpow_row_sum eqb eqb_spec states states_nodup P P_row). Qed.
+
+  (* one step of the m-step kernel is m steps of P; n steps of it are m * n steps of P *)
+  Theorem C06_push_kpow : forall m (mu : St -> R) y, In y states ->
+    push states (kpow eqb states P m) mu y = pushn states P m mu y.
+  Proof. exact (push_kpow eqb eqb_spec states states_nodup P). Qed.
+
+  Theorem C06_pushn_kpow : forall m n (mu : St -> R) y, In y states ->
+    pushn states (kpow eqb states P m) n mu y = pushn states P (m * n) mu y.
+  Proof. exact (pushn_kpow eqb eqb_spec states states_nodup P). Qed.
+
+  Variable pi : St -> R.
+  Hypothesis pi_stat : forall y, In y states -> push states P pi y = pi y.
+
+  Theorem C06_kpow_stationary : forall m y, In y states -> push states (kpow eqb states P m) pi y = pi y.
+  Proof. exact (kpow_stationary eqb eqb_spec states states_nodup P pi pi_stat). Qed.
+
+  Theorem C06_doeblin_blocks : forall (m : nat) (delta : R),
+    (forall x y, In x states -> In y states -> delta <= kpow eqb states P m x y) ->
+    forall mu : St -> R, sumR mu states = sumR pi states ->
+    forall n, l1 states (pushn states P (m * n) mu) pi <= (1 - INR (length states) * delta) ^ n * l1 states mu pi.
+  Proof. exact (doeblin_blocks eqb eqb_spec states states_nodup P P_row pi pi_stat). Qed.
+End C06_blocks.
+
+Section C06_mh_converges_blocks.
+  Context {St : Type}.
+  Variable eqb : St -> St -> bool.
+  Hypothesis eqb_spec : forall x y, eqb x y = true <-> x = y.
+  Variable states : list St.
+  Variable pi : St -> R.
+  Variable q : St -> St -> R.
+  Hypothesis pi_pos : forall x, 0 < pi x.
+  Hypothesis q_nonneg : forall x y, 0 <= q x y.
+  Hypothesis states_nodup : NoDup states.
+
+  (* the Metropolis-Hastings kernel of C01 with only its m-step kernel minorised *)
+  Theorem C06_mh_converges_blocks : forall (m : nat) (delta : R),
+    (forall x y, In x states -> In y states -> delta <= kpow eqb states (K eqb states pi q) m x y) ->
+    forall mu : St -> R, sumR mu states = sumR pi states ->
+    forall n, l1 states (pushn states (K eqb states pi q) (m * n) mu) pi
+              <= (1 - INR (length states) * delta) ^ n * l1 states mu pi.
+  Proof.
+    exact (doeblin_blocks eqb eqb_spec states states_nodup (K eqb states pi q)
+             (fun x Hx => K_row_sum eqb eqb_spec states pi q x states_nodup Hx) pi
+             (fun y Hy => stationary eqb eqb_spec states pi q pi_pos q_nonneg y states_nodup Hy)).
+  Qed.
+End C06_mh_converges_blocks.
+
+Print Assumptions C06_kpow_row_sum.
+Print Assumptions C06_push_kpow.
+Print Assumptions C06_pushn_kpow.
+Print Assumptions C06_kpow_stationary.
+Print Assumptions C06_doeblin_blocks.
+Print Assumptions C06_mh_converges_blocks.
+
+(* ---- the exact-rational evaluation (Model/ErgodicEval.v: states 0..N-1, weights w, proposal matrix q, kernels as
+   matrices of rationals) computes the real objects of the theorems entry by entry: vR mu i = Q2R (qnth mu i),
+   PR P i j = Q2R (mnth P i j) ---- *)
+Theorem C06_eval_kernel : forall (N : nat) (w : list Q) (q : list (list Q)),
+  (forall i, (i < N)%nat -> 0 < vR w i) ->
+  forall x y, (x < N)%nat -> (y < N)%nat ->
+  mnth (Kmat N w q) x y = KQ N w q x y /\
+  Q2R (KQ N w q x y) = K Nat.eqb (seq 0 N) (vR w) (PR q) x y.
+Proof. exact (fun N w q Hw x y Hx Hy => conj (Kmat_entry N w q x y Hx Hy) (KQ_is_K N w q Hw x y Hx Hy)). Qed.
+
+Theorem C06_eval_push : forall (N : nat) (P : list (list Q)) (n : nat) (mu : list Q) (y : nat), (y < N)%nat ->
+  Q2R (qnth (vpushn N P n mu) y) = pushn (seq 0 N) (PR P) n (vR mu) y.
+Proof. exact vpushn_is_pushn. Qed.
+
+Theorem C06_eval_l1 : forall (N : nat) (mu nu : list Q), Q2R (l1Q N mu nu) = l1 (seq 0 N) (vR mu) (vR nu).
+Proof. exact l1Q_is_l1. Qed.
+
+Theorem C06_eval_power : forall (N : nat) (P : list (list Q)), wfmat N P ->
+  forall m x y, (x < N)%nat -> (y < N)%nat ->
+  Q2R (mnth (mpow N P m) x y) = kpow Nat.eqb (seq 0 N) (PR P) m x y.
+Proof. exact mpow_is_kpow. Qed.
+
+Theorem C06_eval_minor : forall (N : nat) (P : list (list Q)) (x y : nat),
+  wfmat N P -> (x < N)%nat -> (y < N)%nat -> (minorQ P <= mnth P x y)%Q.
+Proof. exact minorQ_le. Qed.
+
+Section C06_eval_table.
+  Variable N : nat.
+  Variable w : list Q.
+  Variable q : list (list Q).
+  Hypothesis w_pos : forall i, (i < N)%nat -> (0 < qnth w i)%Q.
+  Hypothesis q_nonneg : forall i j, (i < N)%nat -> (j < N)%nat -> (0 <= mnth q i j)%Q.
+
+  (* the evaluated MH kernel is stochastic and the normalised weights are stationary for it, over R and exactly
+     between the rationals (ergo_eval's first flag) *)
+  Theorem C06_eval_row_sum : forall x, In x (seq 0 N) -> sumR (PR (Kmat N w q) x) (seq 0 N) = 1.
+  Proof. exact (Kmat_row_sum N w q w_pos). Qed.
+
+  Theorem C06_eval_stationary : forall y, In y (seq 0 N) ->
+    push (seq 0 N) (PR (Kmat N w q)) (vR (normalise w)) y = vR (normalise w) y.
+  Proof. exact (Kmat_stationary N w q w_pos q_nonneg). Qed.
+
+  Theorem C06_eval_stationary_flag :
+    forallb (fun y => Qeq_bool (qnth (vpush N (Kmat N w q) (normalise w)) y) (qnth (normalise w) y)) (seq 0 N) = true.
+  Proof. exact (ergo_stat_sound N w q w_pos q_nonneg). Qed.
+
+  (* ergo_eval's `dist` is the l1 distance to pi of the law after m * n steps of the kernel *)
+  Theorem C06_eval_dist : forall (m n : nat) (e : list Q),
+    Q2R (l1Q N (vpushn N (mpow N (Kmat N w q) m) n e) (normalise w))
+    = l1 (seq 0 N) (pushn (seq 0 N) (PR (Kmat N w q)) (m * n) (vR e)) (vR (normalise w)).
+  Proof. exact (ergo_dist_is_l1 N w q). Qed.
+
+  (* and it is below ergo_eval's `bound` (1 - N delta_m)^n l1(e, pi), delta_m the least entry of the m-th power *)
+  Theorem C06_eval_bound : forall (m n : nat) (e : list Q),
+    (qsuml (map (qnth e) (seq 0 N)) == qsuml (map (qnth (normalise w)) (seq 0 N)))%Q ->
+    (l1Q N (vpushn N (mpow N (Kmat N w q) m) n e) (normalise w)
+     <= qmul (qpow (Qred (1 - inject_Z (Z.of_nat N) * minorQ (mpow N (Kmat N w q) m))) n)
+             (l1Q N e (normalise w)))%Q.
+  Proof. exact (ergo_bound_sound N w q w_pos q_nonneg). Qed.
+End C06_eval_table.
+
+(* on every admissible input (positive weights, nonnegative proposal weights, start state in range) the two flags
+   ergo_eval prints last are 1: stationarity holds exactly and the exact distance is below the bound *)
+Theorem C06_eval_flags : forall (ws : list Z) (qs : list (list Z)) (m n s : nat),
+  (forall z, In z ws -> (0 < z)%Z) ->
+  (forall row z, In row qs -> In z row -> (0 <= z)%Z) ->
+  (s < length ws)%nat ->
+  exists front, ergo_eval ws qs m n s = front ++ [1; 1]%Z.
+Proof. exact ergo_eval_flags. Qed.
+
+(* non-vacuity: a 4-state table whose proposal has a zero diagonal; the one-step kernel has a zero entry (delta_1 = 0,
+   bound 20/11 = l1(e_0, pi): no contraction) while delta_2 = 107/1200 and 20 blocks of 2 steps bring the bound to
+   about 2.7e-4 and the exact distance to about 2.3e-15 *)
+Theorem C06_eval_example :
+  ergo_eval [1;2;3;5]%Z [[0;1;1;2];[1;0;4;1];[2;1;0;1];[1;1;1;1]]%Z 2 20 0
+  = [1; 11; 2; 11; 3; 11; 5; 11; 107; 1200;
+     5142167038124967688510395237016892228377440001;
+     19177314205500000000000000000000000000000000000000;
+     466217033920292668929678429099850170612580027134678775704113;
+     200761944647381094053515681440202752000000000000000000000000000000000000000;
+     1; 1]%Z.
+Proof. exact ergo_eval_example. Qed.
+
+Theorem C06_eval_example_onestep :
+  ergo_eval [1;2;3;5]%Z [[0;1;1;2];[1;0;4;1];[2;1;0;1];[1;1;1;1]]%Z 1 20 0
+  = [1; 11; 2; 11; 3; 11; 5; 11; 0; 1; 20; 11;
+     68011179386812229498364346817; 8579785139347783680000000000000000000; 1; 1]%Z.
+Proof. exact ergo_eval_example_onestep. Qed.
+
+Print Assumptions C06_eval_kernel.
+Print Assumptions C06_eval_push.
+Print Assumptions C06_eval_l1.
+Print Assumptions C06_eval_power.
+Print Assumptions C06_eval_minor.
+Print Assumptions C06_eval_row_sum.
+Print Assumptions C06_eval_stationary.
+Print Assumptions C06_eval_stationary_flag.
+Print Assumptions C06_eval_dist.
+Print Assumptions C06_eval_bound.
+Print Assumptions C06_eval_flags.
+Print Assumptions C06_eval_example.
+Print Assumptions C06_eval_example_onestep.
